@@ -68,6 +68,7 @@ class pyparsing_test:
             self._save_context["recursion_enabled"] = (
                 ParserElement._left_recursion_enabled
             )
+            self._save_context["recursion_memos"] = ParserElement.recursion_memos
 
             self._save_context["__diag__"] = {
                 name: getattr(__diag__, name) for name in __diag__._all_names
@@ -100,6 +101,7 @@ class pyparsing_test:
                 (__diag__.enable if value else __diag__.disable)(name)
 
             ParserElement._packratEnabled = False
+            ParserElement._left_recursion_enabled = False
             if self._save_context["packrat_enabled"]:
                 ParserElement.enable_packrat(self._save_context["packrat_cache_size"])
             else:
@@ -108,7 +110,10 @@ class pyparsing_test:
                 "recursion_enabled"
             ]
 
-            __compat__.collect_all_And_tokens = self._save_context["__compat__"]
+            ParserElement.recursion_memos = self._save_context["recursion_memos"]
+
+            for name, value in self._save_context["__compat__"].items():
+                setattr(__compat__, name, value)
 
             return self
 
